@@ -742,6 +742,90 @@ def rule_palette_delta(ctx):
                 "(%d of 18 rows differ)" % (index, nd, what, "it is a delta entry" if index < nd else "it is not a delta entry", len(bad)), fn=f)
 
 
+def rule_predictor_formula(ctx):
+    """the 13 stateless predictors compute the format's formulas of the neighbours"""
+    from .. import absint
+    rid = "R-PREDICTOR-FORMULA"
+    ctx.rule(rid, "Predictor::predict, evaluated from MIR for each of the 13 stateless predictors under six neighbourhoods (positive, "
+                  "negative, mixed signs, ties, large magnitudes) in the interior of a row (EDGE = false and true, x = 3 of 8), equals "
+                  "the format's definition (ISO/IEC 18181-1 predictor table): 0, W, N, (W+N) Idiv 2, Select(W, N, NW), "
+                  "clamp(W+N-NW, min(W,N), max(W,N)), NE, NW, WW, (W+NW) Idiv 2, (N+NW) Idiv 2, (N+NE) Idiv 2, "
+                  "(6N - 2NN + 7W + WW + NEE + 3NE + 8) Idiv 16, with Idiv truncating.  Neighbours are read through the state's own "
+                  "accessors (ne / nn / ww / nee) from row buffers with distinct values, so a formula that picks the wrong neighbour, "
+                  "weight, rounding term or tie rule differs in at least one neighbourhood.  The self-correcting predictor (stateful) "
+                  "is not covered")
+    cr = ctx.prog.crate("jxl_modular")
+    fs = [g for g in cr.fn_list if g.path.endswith("predictor::Predictor::predict")]
+    adt = cr.adts.get("jxl_modular::predictor::Predictor")
+    if len(fs) != 1 or adt is None:
+        ctx.anchor_missing(rid, "jxl_modular::predictor::Predictor::predict")
+        return
+    f = fs[0]
+    ctx.seen(f)
+
+    def tdiv(a, b):
+        q = abs(a) // abs(b)
+        return q if (a >= 0) == (b >= 0) else -q
+
+    def ref(name, W, N, NW, NE, NN, WW, NEE):
+        return {"Zero": 0, "West": W, "North": N, "AvgWestAndNorth": tdiv(W + N, 2),
+                "Select": W if abs(N - NW) < abs(W - NW) else N,
+                "Gradient": max(min(W, N), min(max(W, N), W + N - NW)),
+                "NorthEast": NE, "NorthWest": NW, "WestWest": WW,
+                "AvgWestAndNorthWest": tdiv(W + NW, 2), "AvgNorthAndNorthWest": tdiv(N + NW, 2), "AvgNorthAndNorthEast": tdiv(N + NE, 2),
+                "AvgAll": tdiv(6 * N - 2 * NN + 7 * W + WW + NEE + 3 * NE + 8, 16)}.get(name)
+
+    # x = 3, width = 8: NE = prev_row[4], NEE = prev_row[5], NN = curr_row[3] (the row buffer still holds row y-2 there), WW = curr_row[1]
+    hoods = [  # (W, N, NW, NE, NN, WW, NEE)
+        (10, 20, -7, 50, 140, 12, 60), (-10, -21, -7, -50, -141, -13, -61), (5, -8, 3, 2, -1, 9, -4), (7, 7, 7, 7, 7, 7, 7),
+        (100000, -99999, 65535, -32768, 2147000, -2147000, 31), (3, 9, 6, 1, 0, 0, 1)]
+    rows, bad, undec = 0, [], None
+    for vi, v in enumerate(adt["variants"]):
+        if v["name"] == "SelfCorrecting":
+            continue
+        if ref(v["name"], 1, 1, 1, 1, 1, 1, 1) is None:
+            ctx.bad(rid, "predictor|unknown:" + v["name"], "predictor variant %s has no entry in the reference table" % v["name"], fn=f)
+            continue
+        for (W, N, NW, NE, NN, WW, NEE) in hoods:
+            st = {"w": W, "n": N, "nw": NW, "x": 3, "width": 8, "y": 5,
+                  "prev_row": (901, 902, 903, 904, NE, NEE, 907, 908), "curr_row": (911, WW, 913, NN, 915, 916, 917, 918)}
+
+            def ext(path, st=st):
+                if isinstance(path[-1], int):
+                    base = st.get(path[-2])
+                    return base[path[-1]] if isinstance(base, tuple) and 0 <= path[-1] < len(base) else absint.UNKNOWN
+                if path[-1] == "predictor":
+                    return absint.Ref(("ext", "state"))
+                return st.get(path[-1], absint.UNKNOWN)
+            for edge in (0, 1):
+                ev = absint.Evaluator(ctx.prog, ext=ext)
+                ev.const_params = {"EDGE": edge}
+                try:
+                    got = ev.call_fn(f, [absint.Enum("jxl_modular::predictor::Predictor", vi, v["name"], []), absint.Ref(("ext", "properties"))])
+                except absint.Unsupported as e:
+                    undec = "%s: %s" % (v["name"], e)
+                    break
+                rows += 1
+                want = ref(v["name"], W, N, NW, NE, NN, WW, NEE)
+                if got != want:
+                    bad.append((v["name"], (W, N, NW, NE, NN, WW, NEE), got, want))
+            if undec:
+                break
+        if undec:
+            break
+    ctx.count(rid + ".rows", rows)
+    if undec:
+        ctx.bad(rid, "predict|not-evaluable", "Predictor::predict is no longer a function the evaluator can decide (%s)" % undec, fn=f)
+        return
+    ctx.floor(rid + ".rows", 13 * 6 * 2)
+    if not bad:
+        ctx.ok(rid, "predict|formulas", "%d evaluations equal the format's formulas" % rows, nontrivial=True, fn=f)
+    else:
+        name, hood, got, want = bad[0]
+        ctx.bad(rid, "predict|formulas", "predictor %s with (W, N, NW, NE, NN, WW, NEE) = %s gives %s, the format's formula gives %s (%d of %d "
+                "evaluations differ)" % (name, hood, got, want, len(bad), rows), fn=f)
+
+
 def main(pid, tier, repo=None):
     ctx = Ctx(pid, tier, configs=("workspace",), repo=repo)
     specconst.run(ctx, pid, floor=2)
@@ -753,6 +837,7 @@ def main(pid, tier, repo=None):
     rule_table_index(ctx)
     rule_palette_fastpath(ctx)
     rule_palette_delta(ctx)
+    rule_predictor_formula(ctx)
     from . import fixguards
     fixguards.run(ctx, pid)
     ctx.not_decided("that every decoded sample equals the encoded integer: predictors (incl. the self-correcting one), context-tree lookup, "
